@@ -466,5 +466,59 @@ pub fn run(ctx: &Ctx) -> Report {
         }
     });
     out.merge(frep);
+    // ---- sleep; X; sleep ------------------------------------------------------------------------
+    // "the sleep call ends with the controller in its deep-sleep state" whatever was called since the
+    // previous sleep - also a call that wakes the controller by itself (some drivers pulse RST inside an
+    // update call) without going through wake_up. Only the controller's state after the last sleep is
+    // judged; what X does to a sleeping panel is not.
+    struct SCase {
+        spec: &'static Spec,
+        sym: usize,
+    }
+    let mut scases: Vec<SCase> = Vec::new();
+    for spec in panels_for(ctx) {
+        for si in 0..syms(spec).len() {
+            scases.push(SCase { spec, sym: si });
+        }
+    }
+    let srep = par_run(&scases, ctx.threads, |_, c, rep| {
+        let spec = c.spec;
+        let syms = syms(spec);
+        rep.eval(spec.name);
+        let mut rig = Rig::simple(spec);
+        if !rig.apply(&Op::new(K::Sleep)).is_ok() {
+            return;
+        }
+        if !rig.board.borrow().chip().asleep {
+            // the plain sleep of this driver does not reach deep sleep: that is its own (sleep-signature) case
+            rep.count("sleep_x_sleep_skipped_plain_sleep_not_asleep", 1);
+            return;
+        }
+        for o in &syms[c.sym] {
+            if !rig.apply(o).is_ok() {
+                rep.count("sleep_x_sleep_not_judged", 1);
+                return;
+            }
+        }
+        let c0 = rig.board.borrow().chip().cmds.len();
+        let o = rig.apply(&Op::new(K::Sleep));
+        rep.nontrivial(hash_str(&format!("{}|sleepxsleep|{}", spec.name, c.sym)));
+        rep.count("sleep_x_sleep_checked", 1);
+        let mut ops = vec![Op::new(K::Sleep)];
+        ops.extend(syms[c.sym].iter().cloned());
+        ops.push(Op::new(K::Sleep));
+        let case = case_json(spec, &variant, &ops);
+        let between = format!("between:{}", sym_kinds(&syms, &[c.sym]));
+        if !o.is_ok() {
+            rep.fail(Failure { panel: spec.name.into(), entry: "sleep".into(), class: "sleep-signature".into(), tags: vec!["sleep-fails".into(), between], detail: format!("second sleep() of {} returned {}", ops_short(&ops), o.short()), case });
+            return;
+        }
+        let asleep = rig.board.borrow().chip().asleep;
+        let sent = rig.board.borrow().chip().cmds.len() - c0;
+        if !asleep {
+            rep.fail(Failure { panel: spec.name.into(), entry: "sleep".into(), class: "not-asleep-after-sleep".into(), tags: vec![between], detail: format!("after {} the controller model is awake (the last sleep() sent {} command(s))", ops_short(&ops), sent), case });
+        }
+    });
+    out.merge(srep);
     out
 }
